@@ -403,27 +403,45 @@ func c14ChunkEOF(c *Ctx) {
 	}
 	n := 0
 	var bad []string
-	for _, ret := range returnsOf(fn) {
-		rv, _ := retResult(ret, 1)
-		if rv == nil || isNilConst(rv) {
-			continue
-		}
-		for _, o := range Origins(rv, OriginOpts{}) {
-			if o.Kind != OrgCall {
+	// the error results of fn, followed into the unexported helpers of the same
+	// type that hand it their own stream errors
+	var scan func(fn *ssa.Function, depth int)
+	scan = func(fn *ssa.Function, depth int) {
+		for _, ret := range returnsOf(fn) {
+			if len(ret.Results) == 0 {
 				continue
 			}
-			callee := o.Call.Common().StaticCallee()
-			// an error produced by a read of the stream, returned as is?
-			if !io.CallMayFail(o.Call) {
+			rv, _ := retResult(ret, len(ret.Results)-1)
+			if rv == nil || isNilConst(rv) || !isErrorType(rv.Type()) {
 				continue
 			}
-			n++
-			if callee != nil && vets(callee) {
-				continue
+			for _, o := range Origins(rv, OriginOpts{}) {
+				if o.Kind != OrgCall {
+					continue
+				}
+				callee := o.Call.Common().StaticCallee()
+				// an error produced by a read of the stream, returned as is?
+				if !io.CallMayFail(o.Call) {
+					continue
+				}
+				if callee != nil && vets(callee) {
+					n++
+					continue
+				}
+				if callee != nil && depth < 2 && callee.Blocks != nil && callee.Signature.Recv() != nil && fn.Signature.Recv() != nil &&
+					types.Identical(callee.Signature.Recv().Type(), fn.Signature.Recv().Type()) && callee.Object() != nil && !callee.Object().Exported() && callee != fn {
+					before := n
+					scan(callee, depth+1)
+					if n > before {
+						continue
+					}
+				}
+				n++
+				bad = append(bad, calleeName(o.Call)+" ("+p.Pos(o.Call.Pos())+")")
 			}
-			bad = append(bad, calleeName(o.Call)+" ("+p.Pos(o.Call.Pos())+")")
 		}
 	}
+	scan(fn, 0)
 	sort.Strings(bad)
 	c.Check(rule, "(*FilePages).ReadPage vets the io.EOF of its stream", fn.Pos(), len(bad) == 0 && n > 0, "(*FilePages).ReadPage returns the error of "+strings.Join(bad, ", ")+" as it is: when the source ends before the end of the column chunk its io.EOF is taken for the end of the pages and the remaining rows go missing without an error")
 	c.Stats[rule+".stream_errors_returned"] = n
